@@ -122,28 +122,48 @@ func (n c44Net) defaultURLs(t *rapid.T) []string {
 	return c44ListFile(data)
 }
 
-// network flags as cmd/flags.go defines them. The command marks them mutually
-// exclusive; the resolver itself is also called with several set.
-type c44Selection struct{ mainnet, testnet, developer bool }
+// network flags as cmd/flags.go defines them (three booleans). Every flag can
+// be absent, given as a switch / "=true", or given with an explicit "=false"
+// (wrapper scripts render `--testnet={{ .testnet }}`). resolveNetworks
+// documents that the flag VALUES decide. cobra additionally refuses command
+// lines that mention two of the flags; ReadConfig itself is defined on the
+// flag set, so mentioned-but-false flags are generated for it as well.
+const (
+	c44Absent = 0
+	c44True   = 1
+	c44False  = 2
+)
+
+type c44Selection struct{ mainnet, testnet, developer int }
 
 func (s c44Selection) count() int {
 	n := 0
-	for _, b := range []bool{s.mainnet, s.testnet, s.developer} {
-		if b {
+	for _, b := range []int{s.mainnet, s.testnet, s.developer} {
+		if b == c44True {
 			n++
 		}
 	}
 	return n
 }
 
-// the network the user selected; "" when the flags contradict each other
+func (s c44Selection) mentioned() int {
+	n := 0
+	for _, b := range []int{s.mainnet, s.testnet, s.developer} {
+		if b != c44Absent {
+			n++
+		}
+	}
+	return n
+}
+
+// the network the user selected; "" when the flag values contradict each other
 func (s c44Selection) selected() string {
 	switch {
-	case s.count() == 0 || (s.count() == 1 && s.mainnet):
+	case s.count() == 0 || (s.count() == 1 && s.mainnet == c44True):
 		return "mainnet"
-	case s.count() == 1 && s.testnet:
+	case s.count() == 1 && s.testnet == c44True:
 		return "testnet"
-	case s.count() == 1 && s.developer:
+	case s.count() == 1 && s.developer == c44True:
 		return "developer"
 	}
 	return ""
@@ -151,15 +171,17 @@ func (s c44Selection) selected() string {
 
 func (s c44Selection) String() string {
 	var f []string
-	if s.mainnet {
-		f = append(f, "--mainnet")
+	add := func(name string, v int) {
+		switch v {
+		case c44True:
+			f = append(f, "--"+name)
+		case c44False:
+			f = append(f, "--"+name+"=false")
+		}
 	}
-	if s.testnet {
-		f = append(f, "--testnet")
-	}
-	if s.developer {
-		f = append(f, "--developer")
-	}
+	add("mainnet", s.mainnet)
+	add("testnet", s.testnet)
+	add("developer", s.developer)
 	if len(f) == 0 {
 		return "(no network flag)"
 	}
@@ -167,22 +189,41 @@ func (s c44Selection) String() string {
 }
 
 func c44GenSelection(t *rapid.T, allowConflicts bool) c44Selection {
-	hi := 3
-	if allowConflicts {
-		hi = 5
+	spell := func(code, pos int) int {
+		for i := 0; i < pos; i++ {
+			code /= 3
+		}
+		return code % 3
 	}
-	switch rapid.IntRange(0, hi).Draw(t, "networkFlags") {
-	case 0:
-		return c44Selection{}
-	case 1:
-		return c44Selection{mainnet: true}
-	case 2:
-		return c44Selection{testnet: true}
-	case 3:
-		return c44Selection{developer: true}
-	default:
-		bits := rapid.SampledFrom([]int{3, 5, 6, 7}).Draw(t, "conflictingFlags")
-		return c44Selection{bits&1 != 0, bits&2 != 0, bits&4 != 0}
+	var s c44Selection
+	switch rapid.IntRange(0, 9).Draw(t, "networkFlagsClass") {
+	case 0, 1, 2, 3: // customary: nothing or one switch
+		switch rapid.IntRange(0, 3).Draw(t, "networkFlags") {
+		case 1:
+			s.mainnet = c44True
+		case 2:
+			s.testnet = c44True
+		case 3:
+			s.developer = c44True
+		}
+		return s
+	case 4, 5, 6, 7: // at least one flag switched off explicitly
+		for {
+			code := rapid.IntRange(0, 26).Draw(t, "flagSpellings")
+			s = c44Selection{spell(code, 0), spell(code, 1), spell(code, 2)}
+			hasFalse := s.mainnet == c44False || s.testnet == c44False || s.developer == c44False
+			if hasFalse && (allowConflicts || s.count() <= 1) {
+				return s
+			}
+		}
+	default: // any spelling
+		for {
+			code := rapid.IntRange(0, 26).Draw(t, "anySpellings")
+			s = c44Selection{spell(code, 0), spell(code, 1), spell(code, 2)}
+			if allowConflicts || s.count() <= 1 {
+				return s
+			}
+		}
 	}
 }
 
@@ -191,11 +232,16 @@ func c44NetworkFlagSet(s c44Selection) *pflag.FlagSet {
 	fs.Bool(network.Mainnet.String(), false, "")
 	fs.Bool(network.Testnet.String(), false, "")
 	fs.Bool(network.Developer.String(), false, "")
-	set := func(name string, v bool) {
-		if v {
-			if err := fs.Set(name, "true"); err != nil {
-				panic(err)
-			}
+	set := func(name string, v int) {
+		var err error
+		switch v {
+		case c44True:
+			err = fs.Set(name, "true")
+		case c44False:
+			err = fs.Set(name, "false")
+		}
+		if err != nil {
+			panic(err)
 		}
 	}
 	set("mainnet", s.mainnet)
@@ -494,7 +540,7 @@ func TestVerif_C44_Resolvers(t *testing.T) {
 		}
 
 		explicit, unset, labels := c44AddrLabels(addrs)
-		labels = append(labels, "net:"+net.name, fmt.Sprintf("flags:%d", sel.count()),
+		labels = append(labels, "net:"+net.name, fmt.Sprintf("flags-true:%d", sel.count()), fmt.Sprintf("flags-mentioned:%d", sel.mentioned()), fmt.Sprintf("explicit-false:%v", sel.mentioned() > sel.count()),
 			fmt.Sprintf("peers:explicit=%v", len(peers) > 0), fmt.Sprintf("electrum:explicit=%v", url != ""))
 		// non-trivial: explicit and unset values are mixed
 		// (a network dependent default is due while an explicit value must stay)
@@ -567,7 +613,7 @@ func TestVerif_C44_ReadConfig(t *testing.T) {
 	dir := t.TempDir()
 	rapid.Check(t, func(t *rapid.T) {
 		viper.Reset()
-		sel := c44GenSelection(t, false) // the command rejects contradicting network flags
+		sel := c44GenSelection(t, false) // at most one network flag is true
 		var peersFile, peersFlag []string
 		switch rapid.IntRange(0, 5).Draw(t, "peersSource") {
 		case 0, 1:
@@ -686,7 +732,7 @@ func TestVerif_C44_ReadConfig(t *testing.T) {
 			}
 			return name + ":unset"
 		}
-		labels = append(labels, "net:"+net.name, fmt.Sprintf("configFile:%v", useFile),
+		labels = append(labels, "net:"+net.name, fmt.Sprintf("configFile:%v", useFile), fmt.Sprintf("flags-mentioned:%d", sel.mentioned()), fmt.Sprintf("explicit-false:%v", sel.mentioned() > sel.count()),
 			srcLabel("peers", len(peersFile) > 0, len(peersFlag) > 0), srcLabel("electrum", url.file != "", url.flag != ""))
 		someExplicit := explicit > 0 || len(peers) > 0 || url.effective() != ""
 		someUnset := unset > 0 && (len(peers) == 0 || url.effective() == "")
